@@ -31,7 +31,11 @@ EXCLUDE_FILES = (
 )
 # trait impl blocks whose methods are reachable by the public (std / num-traits / serde traits, chrono's own)
 PUBLIC_TRAITS = ('FromStr', 'TryFrom', 'FromPrimitive', 'Datelike', 'Timelike', 'TimeZone', 'DurationRound',
-                 'SubsecRound', 'Offset', 'Serialize', 'Deserialize', 'Visitor', 'Display', 'Debug')
+                 'SubsecRound', 'Offset', 'Serialize', 'Deserialize', 'Display', 'Debug')
+# named by the property text although they return String: "the RFC 3339 renderers"
+FORCE_NAMES = ('to_rfc3339', 'to_rfc3339_opts')
+# private types (internals of NaiveDate, rkyv mirror types, Local)
+PRIVATE_OWNERS = re.compile(r'YearFlags|\bMdf\b|InternalNumeric|InternalFixed|Archived|<Local>|\bLocal\b|SerdeError|Visitor')
 
 
 def blank(src):
@@ -152,7 +156,7 @@ def scan_file(path, rel):
             header = src[stmt_start:i]
             hh = norm(re.sub(r'#!?\[[^\]]*(?:\[[^\]]*\][^\]]*)*\]', ' ', header))
             attrs = ' '.join(re.findall(r'#\[[^\]]*(?:\[[^\]]*\][^\]]*)*\]', header))
-            if re.search(r'\bfn (\w+)', hh) and stack and stack[-1][0] == 'trait':
+            if False and re.search(r'\bfn (\w+)', hh) and stack and stack[-1][0] == 'trait':
                 rec = fn_record(hh, attrs, stack, rel, src.count('\n', 0, stmt_start + len(header) - len(header.lstrip())) + 1)
                 if rec:
                     found.append(rec)
@@ -186,13 +190,15 @@ def fn_record(hh, attrs, stack, rel, line):
     if not mret:
         return None
     ret = norm(mret.group(1))
-    if not FALLIBLE.match(ret):
+    if not FALLIBLE.match(ret) and name not in FORCE_NAMES:
         return None
     if any(s[2] for s in stack):
         return None
     if re.search(r'deprecated|cfg\(test\)|rkyv|arbitrary|wasm|windows|__internal_bench', attrs):
         return None
     ctx = [s for s in stack if s[0] in ('impl', 'timpl', 'trait')]
+    if ctx and PRIVATE_OWNERS.search(ctx[-1][1]):
+        return None
     if any(s[0] == 'other' for s in stack):
         return None   # nested inside a function body
     vis_pub = re.search(r'\bpub\b(?!\()', quals) is not None
